@@ -25,13 +25,9 @@ class FuncWrapper:
     def set_func(self, func):
         self.__call__ = func
 
-    def __eq__(self, other):
-        if isinstance(other, FuncWrapper):
-            return self._key == other._key
-        return NotImplemented
-
-    def __hash__(self):
-        return hash(self._key)
+    # Stubs are compared by identity.
+    # Equality by key made ``cached_call`` serve a closure capturing the stub of another (concurrent or failed) request,
+    # this stub can be still unbound or never be bound at all
 
 
 CallableT = TypeVar("CallableT", bound=Callable)
